@@ -390,3 +390,72 @@ def success_return(fn):
             return False
         return ret_class(fn, ev, facts) in ('zero', 'unknown', 'void')
     return pred
+
+
+def find_spin(fn, is_progress, max_states=100000):
+    """Search the (block, facts) state graph for a cycle that passes no progress
+    event.  Returns a Witness (the cycle) or None.  Facts come from the same
+    branch-on-same-variable refinement as find_path, so `quit = 1; continue;`
+    followed by `while (!quit)` is not a cycle."""
+    start = (fn.entry.id, frozenset())
+    succs = {}
+    order = []
+    work = [start]
+    seen = {start}
+    while work:
+        node = work.pop()
+        bid, facts = node
+        b = fn.blocks[bid]
+        progress = False
+        f = facts
+        for ev in b.events:
+            if is_progress(ev):
+                progress = True
+            f = transfer(fn, ev, f)
+        outs = []
+        for s, label in b.succs:
+            f2 = f
+            if label in ('T', 'F'):
+                new = cond_facts(fn, b.cond, label)
+                if new:
+                    if _contradicts(f, new):
+                        continue
+                    f2 = _add_facts(f, new)
+            n2 = (s.id, f2)
+            outs.append((n2, progress))
+            if n2 not in seen:
+                seen.add(n2)
+                work.append(n2)
+                if len(seen) > max_states:
+                    raise RuntimeError('find_spin: state budget exceeded in %s' % fn.name)
+        succs[node] = outs
+    # cycle detection on non-progress edges (iterative DFS with colours)
+    WHITE, GREY, BLACK = 0, 1, 2
+    colour = {n: WHITE for n in seen}
+    for root in seen:
+        if colour[root] != WHITE:
+            continue
+        stack = [(root, iter(succs.get(root, [])))]
+        colour[root] = GREY
+        pathl = [root]
+        while stack:
+            node, it = stack[-1]
+            advanced = False
+            for (n2, prog) in it:
+                if prog:
+                    continue
+                if colour[n2] == GREY:
+                    i = pathl.index(n2)
+                    cyc = pathl[i:] + [n2]
+                    return Witness([(n[0], fn.blocks[n[0]].line, '') for n in cyc])
+                if colour[n2] == WHITE:
+                    colour[n2] = GREY
+                    stack.append((n2, iter(succs.get(n2, []))))
+                    pathl.append(n2)
+                    advanced = True
+                    break
+            if not advanced:
+                colour[node] = BLACK
+                stack.pop()
+                pathl.pop()
+    return None
